@@ -117,6 +117,7 @@ func sysNew(f []string) vlib.Res {
 		"txt.zone.test. 300 IN TXT \"hello\"",
 		"deep.a.b.zone.test. 300 IN A 192.0.2.12",
 		"mx.zone.test. 300 IN MX 10 www.zone.test.",
+		"zone.test. 300 IN MX 10 mx.zone.test.",
 		"d.zone.test. 300 IN DNAME other.test.",
 		"di.zone.test. 300 IN DNAME plain.test.")
 	if spec["zone"] == "s" {
@@ -421,6 +422,14 @@ func (s *sysWorld) apply(t tamper, q dns.Question, m *dns.Msg) *dns.Msg {
 				sg.Algorithm = 1
 			case "alg253":
 				sg.Algorithm = 253
+			case "signer-qname": // the signer is rewritten to the query name itself: below the zone, no zone cut
+				sg.SignerName = q.Name
+			case "signer-mid": // … or to the name one label above the query name (when that is still below the zone)
+				if i, end := dns.NextLabel(q.Name, 0); !end && dns.CountLabel(q.Name[i:]) > dns.CountLabel(sg.SignerName) {
+					sg.SignerName = q.Name[i:]
+				} else {
+					sg.SignerName = q.Name
+				}
 			case "tag":
 				sg.KeyTag ^= 0x5555
 			case "covered":
@@ -883,6 +892,34 @@ func (s *sysWorld) apply(t tamper, q dns.Question, m *dns.Msg) *dns.Msg {
 				}
 			}
 			if len(ns) > 0 {
+				m.Answer, m.Ns, m.Rcode = nil, ns, dns.RcodeSuccess
+			}
+		}
+	case "parent-denial":
+		// an answer of the CHILD's apex is replaced by NOERROR/empty with the PARENT's genuine SOA and the parent's genuine
+		// delegation-point NSEC for the child (NS [DS] RRSIG NSEC): the parent speaks for DS there and for nothing else
+		if child := s.w.Zones[strings.ToLower(q.Name)]; child != nil && child.Parent != nil && child.Parent.Signed && q.Qtype != dns.TypeDS && len(m.Answer) > 0 {
+			par := child.Parent
+			first := dns.SplitDomainName(q.Name)[0]
+			pm := new(dns.Msg)
+			pm.SetQuestion(first+"0."+strings.TrimPrefix(q.Name, first+"."), dns.TypeA)
+			par.Answer(pm.Question[0], true, pm)
+			var ns []dns.RR
+			for _, rr := range pm.Ns {
+				switch x := rr.(type) {
+				case *dns.SOA:
+					ns = append(ns, rr)
+				case *dns.NSEC:
+					if strings.EqualFold(x.Hdr.Name, q.Name) {
+						ns = append(ns, rr)
+					}
+				case *dns.RRSIG:
+					if x.TypeCovered == dns.TypeSOA || (x.TypeCovered == dns.TypeNSEC && strings.EqualFold(x.Hdr.Name, q.Name)) {
+						ns = append(ns, rr)
+					}
+				}
+			}
+			if len(ns) >= 4 {
 				m.Answer, m.Ns, m.Rcode = nil, ns, dns.RcodeSuccess
 			}
 		}
@@ -1416,8 +1453,10 @@ func genL3(r *vlib.R, emit func(string)) int {
 		{"rcode", "1", "data"}, {"rcode", "4", "data"}, {"rcode", "5", "data"}, {"rcode", "9", "data"}, {"rcode", "3", "all"},
 		{"inject-auth", "ns-inzone", "data"}, {"inject-auth", "ns-inzone", "all"}, {"inject-auth", "ns-inzone-sig", "data"},
 		{"inject-auth", "a", "data"}, {"inject-auth", "soa", "data"}, {"inject-auth", "txt-root", "data"}, {"inject-auth", "a", "all"},
+		{"parent-denial", "-", "data"}, {"parent-denial", "-", "data"},
 		{"nodata-replay", "ns", "data"}, {"nodata-replay", "txt", "data"}, {"nodata-replay", "nsec", "data"}, {"nodata-replay", "soansec", "data"},
 		{"nodata-replay", "ns", "data"}, {"sigfield", "alg16", "data"}, {"sigfield", "alg12", "all"}, {"sigfield", "alg1", "data"}, {"sigfield", "alg253", "notkey"}, {"sigfield", "tag", "data"},
+		{"sigfield", "signer-qname", "data"}, {"sigfield", "signer-qname", "data"}, {"sigfield", "signer-mid", "data"}, {"sigfield", "signer-qname", "notkey"},
 		{"sigfield", "covered", "data"}, {"sigfield", "origttl", "data"}, {"sigfield", "alg16", "notkey"},
 		{"dname-retarget", "evil", "data"}, {"dname-retarget", "evil", "data"}, {"dname-retarget", "insert", "data"}, {"ds-replay-nsec", "-", "all"},
 		{"padkey", "denyds", "all"}, {"padkey", "data", "all"}, {"padkey", "deny", "all"}, {"padkey", "data", "all"}}
